@@ -344,6 +344,7 @@ pub fn run(tier: Tier) -> i32 {
         }
     }
     rep.set("rule", json!("Ordered lists of 1-3 distinct references (thorough tier: also every set of 4, ascending and descending) from 11 elements with known shapes (five rects: overlapping, nested, disjoint, negative/fractional; circle, ellipse, line, group, a previous surround element, a previous inside element) x container {rect, circle, ellipse} x {surround, inside} x 10 margin forms (none, 1-4 values, mixed separators, percent, percent+absolute, negative, zero). Oracle from the references' known geometry: surround rect = union grown by margin exactly; circle/ellipse centred on that box and enclosing its corners (ellipse: corners not outside the curve; circle: radius between the half-diagonal and that of the enclosing square); percent margins only required to enclose. inside: rect among rect references = intersection shrunk by margin exactly; every boundary sample point of the result lies within every listed element's own area and within the intersection box shrunk by absolute margins; an empty intersection must not yield a positioned element. surround/inside/margin absent from the output. Non-trivial = Ok with observable geometry and all clauses satisfied."));
+    rep.set("also", json!("Also: margin without surround / inside (attribute, through <defaults>, on a circle) never reaches the output; '^' in a reference list together with a forward reference."));
     let st = run_space(cases.len(), |i| check(&cases[i]));
     let ms = margins();
     rep.sample(json!({"doc": document(&cases[cases.len() / 2], &ms)}));
